@@ -180,6 +180,7 @@ class SmallBufferAllocator {
       }
       uint32_t allocId = lock.fetch_add(1, std::memory_order_acquire);
       if (allocId == 0) {
+        DISPENSO_VERIF_POINT(::dispenso::verif::kSbaAfterBackingLock);
         char* buffer = reinterpret_cast<char*>(detail::alignedMalloc(kMallocBytes, kChunkSize));
         backingStore.push_back(buffer);
 
